@@ -1,9 +1,405 @@
+/-
+C07 — readers/writers follow the published conventions; malformed files are rejected.
+Theorems about the executable model `Evo.Text` (Model/TextFormats.lean) of
+`evo/tools/file_interface.py`; the model is tied to /repo by `./check C07`.
+-/
 import EvoModel.Model.TextFormats
+import EvoModel.Lemmas.TextFormats
+import Mathlib.Algebra.Order.Field.Rat
+import Mathlib.Algebra.Order.Ring.Rat
+import Mathlib.Tactic.FieldSimp
+import Mathlib.Tactic.Ring
+import Mathlib.Tactic.Linarith
+import Mathlib.Tactic.Positivity
+import Mathlib.Tactic.NormNum
+import Mathlib.Tactic.LinearCombination
 namespace Evo.C07
 open Evo Evo.Text
 
-/-- TUM slot map: `t x y z qx qy qz qw` ↦ stamp, position, quaternion stored as `(w, x, y, z)`. -/
+/-! ### slot maps -/
+
+/-- TUM `t x y z qx qy qz qw` ↦ stamp, position, quaternion stored as `(w, x, y, z)`. -/
 theorem tum_slots (t x y z qx qy qz qw : Rat) :
     tumOfRow [t, x, y, z, qx, qy, qz, qw] = some ⟨t, x, y, z, qw, qx, qy, qz⟩ := rfl
+
+/-- KITTI: 12 entries are the 3×4 pose matrix, row-major. -/
+theorem kitti_slots (a b c d e f g h i j k l : Rat) :
+    kittiOfRow [a, b, c, d, e, f, g, h, i, j, k, l] = some ⟨a, b, c, d, e, f, g, h, i, j, k, l⟩ := rfl
+
+/-- EuRoC: `ns, x, y, z, qw, qx, qy, qz, …`: `q_w` first, nanoseconds divided by 10⁹ (one more
+rounding), columns after the eighth ignored. -/
+theorem euroc_slots (ns x y z qw qx qy qz : Rat) (more : List Rat) :
+    eurocOfRow (ns :: x :: y :: z :: qw :: qx :: qy :: qz :: more)
+      = some ((F64.rne (ns / 1000000000)).map fun s => ⟨s, x, y, z, qw, qx, qy, qz⟩) := rfl
+
+/-! ### all or nothing -/
+
+/-- If the table reader accepts, the result has exactly one row per data line of the file, in
+file order, and every number is the rounding of the literal in the same row and column:
+nothing is dropped, reordered, shifted or padded. -/
+theorem read_all_or_nothing {d : Char} {w : Nat → Bool} {t : Str} {m : List (List Rat)}
+    (h : readTable d w t = .ok m) :
+    List.Forall₂ (fun l vals => List.Forall₂ FieldIs (fields d l) vals) (dataLines t) m := by
+  obtain ⟨r0, rest, q, hcsv, -, -, hq, hm⟩ := readTable_ok h
+  rw [← hcsv, csvRows_eq] at hq
+  have h1 := mapOpt_some hq
+  have h2 := mapOpt_some hm
+  rw [List.forall₂_map_left_iff] at h1
+  refine (forall₂_comp h1 h2).imp ?_
+  rintro l vals ⟨qs, ha, hb⟩
+  exact (forall₂_comp (mapOpt_some ha) (mapOpt_some hb)).imp fun f v ⟨q, h1, h2⟩ => ⟨q, h1, h2⟩
+
+/-- TUM reader: accepted ⇒ one pose per data line, each built from the eight numbers of its line. -/
+theorem tum_all_or_nothing {t : Str} {ps : List StampedPose} (h : readTum t = .ok ps) :
+    List.Forall₂ (fun l p => ∃ vals, List.Forall₂ FieldIs (fields ' ' l) vals ∧ tumOfRow vals = some p)
+      (dataLines t) ps := by
+  unfold readTum at h
+  split at h
+  · cases h
+  · rename_i m hm
+    split at h
+    · cases h
+    · rename_i l hl
+      cases h
+      exact forall₂_comp (read_all_or_nothing hm) (mapOpt_some hl)
+
+theorem tum_row_count {t : Str} {ps : List StampedPose} (h : readTum t = .ok ps) :
+    ps.length = (dataLines t).length := (tum_all_or_nothing h).length_eq.symm
+
+/-! ### malformed files are rejected, wherever the defect is -/
+
+/-- A row with a wrong number of columns — in any position — makes the TUM and KITTI readers
+fail with the format error; for EuRoC: a row with fewer than 8 columns, or two rows of different
+lengths. -/
+theorem reject_wrong_column_count_any_row (t : Str) :
+    (∀ r ∈ csvRows ' ' t, r.length ≠ 8 → readTum t = .error .format) ∧
+    (∀ r ∈ csvRows ' ' t, r.length ≠ 12 → readKitti t = .error .format) ∧
+    (∀ r ∈ csvRows ',' t, r.length < 8 → readEuroc t = .error .format) ∧
+    (∀ r ∈ csvRows ',' t, ∀ r' ∈ csvRows ',' t, r.length ≠ r'.length → readEuroc t = .error .format) := by
+  refine ⟨fun r hr hl => readTum_err (readTable_exact_width hr hl),
+    fun r hr hl => readKitti_err (readTable_exact_width hr hl), ?_, ?_⟩
+  · intro r hr hl
+    apply readEuroc_err
+    cases hc : csvRows ',' t with
+    | nil => exact readTable_no_rows hc
+    | cons r0 rest =>
+      by_cases h0 : 8 ≤ r0.length
+      · rw [hc] at hr
+        rcases List.mem_cons.mp hr with rfl | hr
+        · omega
+        · exact readTable_ragged hc hr (by omega)
+      · exact readTable_bad_width hc (by simpa using h0)
+  · intro r hr r' hr' hne
+    apply readEuroc_err
+    cases hc : csvRows ',' t with
+    | nil => exact readTable_no_rows hc
+    | cons r0 rest =>
+      rw [hc] at hr hr'
+      by_cases h1 : r.length = r0.length
+      · have h2 : r'.length ≠ r0.length := fun e => hne (h1.trans e.symm)
+        rcases List.mem_cons.mp hr' with rfl | hr'
+        · exact absurd rfl h2
+        · exact readTable_ragged hc hr' h2
+      · rcases List.mem_cons.mp hr with rfl | hr
+        · exact absurd rfl h1
+        · exact readTable_ragged hc hr h1
+
+/-- A field that is not a decimal literal — in any row and column — is fatal for every reader. -/
+theorem reject_non_numeric_any_field (t : Str) (d : Char) (r : List Str) (f : Str)
+    (hr : r ∈ csvRows d t) (hf : f ∈ r) (hbad : parseDec f = none) :
+    (d = ' ' → readTum t = .error .format ∧ readKitti t = .error .format) ∧
+    (d = ',' → readEuroc t = .error .format) := by
+  refine ⟨?_, ?_⟩
+  · rintro rfl
+    exact ⟨readTum_err (readTable_non_numeric hr hf hbad), readKitti_err (readTable_non_numeric hr hf hbad)⟩
+  · rintro rfl
+    exact readEuroc_err (readTable_non_numeric hr hf hbad)
+
+/-- A data line that ends with the delimiter has an empty last field: rejected. -/
+theorem reject_trailing_delimiter (t : Str) (l : Str) :
+    ((l ++ [' ']) ∈ dataLines t → readTum t = .error .format ∧ readKitti t = .error .format) ∧
+    ((l ++ [',']) ∈ dataLines t → readEuroc t = .error .format) := by
+  have key : ∀ d : Char, (l ++ [d]) ∈ dataLines t →
+      fields d (l ++ [d]) ∈ csvRows d t ∧ [] ∈ fields d (l ++ [d]) := by
+    intro d h
+    refine ⟨by rw [csvRows_eq]; exact List.mem_map_of_mem h, ?_⟩
+    unfold fields
+    have : (l ++ [d]).isEmpty = false := by cases l <;> rfl
+    rw [this, if_neg (by simp), splitOn_trailing]
+    simp
+  refine ⟨fun h => ?_, fun h => ?_⟩
+  · obtain ⟨h1, h2⟩ := key ' ' h
+    exact (reject_non_numeric_any_field t ' ' _ [] h1 h2 parseDec_nil).1 rfl
+  · obtain ⟨h1, h2⟩ := key ',' h
+    exact (reject_non_numeric_any_field t ',' _ [] h1 h2 parseDec_nil).2 rfl
+
+/-- A blank data row — first, in the middle or as the last line — is rejected. -/
+theorem reject_blank_row (t : Str) (h : [] ∈ dataLines t) :
+    readTum t = .error .format ∧ readKitti t = .error .format ∧ readEuroc t = .error .format := by
+  have hmem : ∀ d : Char, ([] : List Str) ∈ csvRows d t := by
+    intro d
+    rw [csvRows_eq]
+    exact List.mem_map.mpr ⟨[], h, rfl⟩
+  have hw := reject_wrong_column_count_any_row t
+  exact ⟨hw.1 [] (hmem ' ') (by simp), hw.2.1 [] (hmem ' ') (by simp), hw.2.2.1 [] (hmem ',') (by simp)⟩
+
+/-- No data rows (empty file, only comment lines): rejected. -/
+theorem reject_no_rows (t : Str) (h : ∀ l ∈ lines t, isComment l = true) :
+    readTum t = .error .format ∧ readKitti t = .error .format ∧ readEuroc t = .error .format := by
+  have hd : dataLines t = [] := by
+    unfold dataLines
+    rw [List.filter_eq_nil_iff]
+    intro l hl
+    simp [h l hl]
+  have hc : ∀ d, csvRows d t = [] := fun d => by rw [csvRows_eq, hd]; rfl
+  exact ⟨readTum_err (readTable_no_rows (hc _)), readKitti_err (readTable_no_rows (hc _)),
+    readEuroc_err (readTable_no_rows (hc _))⟩
+
+/-! ### what is ignored: comment lines, the byte-order mark, CR before LF -/
+
+/-- A `#` line contributes nothing, wherever it stands: at the beginning of the text or after
+any complete line (`a` ends with a newline). -/
+theorem comments_ignored (d : Char) (a c b : Str) (hc : isComment c = true) (hnl : '\n' ∉ c) :
+    csvRows d (c ++ '\n' :: b) = csvRows d b ∧
+    csvRows d ((a ++ ['\n']) ++ (c ++ '\n' :: b)) = csvRows d ((a ++ ['\n']) ++ b) := by
+  have first : ∀ b, ((lines (c ++ '\n' :: b)).filter fun l => !isComment l)
+      = (lines b).filter fun l => !isComment l := by
+    intro b
+    rw [lines_cons_line c b hnl]
+    simp [List.filter_cons, isComment_stripCR c hc]
+  refine ⟨by unfold csvRows; rw [first], ?_⟩
+  unfold csvRows
+  have e1 : (a ++ ['\n']) ++ (c ++ '\n' :: b) = a ++ '\n' :: (c ++ '\n' :: b) := by simp
+  have e2 : (a ++ ['\n']) ++ b = a ++ '\n' :: b := by simp
+  rw [e1, e2, lines_append_complete _ a _ (le_refl _), lines_append_complete _ a b (le_refl _)]
+  rw [List.filter_append, List.filter_append, first]
+
+/-- A byte-order mark in front of the text is skipped by the path readers; `\r\n` line ends read
+like `\n`. -/
+theorem bom_crlf_ignored (b : Str) :
+    readTumPath ('\uFEFF' :: b) = readTum b ∧ readKittiPath ('\uFEFF' :: b) = readKitti b ∧
+    readEurocPath ('\uFEFF' :: b) = readEuroc b ∧
+    (∀ l : Str, '\n' ∉ l → l.getLast? ≠ some '\r' →
+      lines (l ++ '\r' :: '\n' :: b) = lines (l ++ '\n' :: b)) := by
+  refine ⟨rfl, rfl, rfl, ?_⟩
+  intro l hl hlast
+  have h1 : l ++ '\r' :: '\n' :: b = (l ++ ['\r']) ++ '\n' :: b := by simp
+  have hl' : '\n' ∉ l ++ ['\r'] := by
+    simp only [List.mem_append, List.mem_singleton, not_or]
+    exact ⟨hl, by decide⟩
+  rw [h1, lines_cons_line _ b hl', lines_cons_line l b hl]
+  congr 1
+  unfold stripCR
+  simp [hlast]
+
+/-! ### the model reader reads what the writers lay out -/
+
+/-- For every number → token function whose tokens are literals of the grammar that convert
+back to the number (checked by the harness for every token evo writes), the TUM reader of the
+model returns exactly the trajectory the TUM writer laid out: same poses, same order, every
+value in its slot. -/
+theorem layout_then_read (tok : Rat → Str) (p0 : StampedPose) (ps : List StampedPose)
+    (hg : ∀ p ∈ p0 :: ps, ∀ x ∈ tumRow p, GoodTok tok x) :
+    readTum (layoutTum tok (p0 :: ps)) = .ok (p0 :: ps) := by
+  have h := readTable_layoutRows tok (· == 8) (tumRow p0) (ps.map tumRow) rfl
+    (by intro r hr; obtain ⟨p, -, rfl⟩ := List.mem_map.mp hr; rfl) (by simp [tumRow])
+    (by
+      intro r hr x hx
+      rw [← List.map_cons] at hr
+      obtain ⟨p, hp, rfl⟩ := List.mem_map.mp hr
+      exact hg p hp x hx)
+  unfold readTum layoutTum
+  rw [List.map_cons, h]
+  have : mapOpt tumOfRow (tumRow p0 :: ps.map tumRow) = some (p0 :: ps) := by
+    rw [← List.map_cons]
+    exact mapOpt_map_inv fun p _ => tumOfRow_tumRow p
+  simp only [this]
+
+theorem layout_then_read_kitti (tok : Rat → Str) (p0 : Mat34) (ps : List Mat34)
+    (hg : ∀ p ∈ p0 :: ps, ∀ x ∈ kittiRow p, GoodTok tok x) :
+    readKitti (layoutKitti tok (p0 :: ps)) = .ok (p0 :: ps) := by
+  have h := readTable_layoutRows tok (· == 12) (kittiRow p0) (ps.map kittiRow) rfl
+    (by intro r hr; obtain ⟨p, -, rfl⟩ := List.mem_map.mp hr; rfl) (by simp [kittiRow])
+    (by
+      intro r hr x hx
+      rw [← List.map_cons] at hr
+      obtain ⟨p, hp, rfl⟩ := List.mem_map.mp hr
+      exact hg p hp x hx)
+  unfold readKitti layoutKitti
+  rw [List.map_cons, h]
+  have : mapOpt kittiOfRow (kittiRow p0 :: ps.map kittiRow) = some (p0 :: ps) := by
+    rw [← List.map_cons]
+    exact mapOpt_map_inv fun p _ => kittiOfRow_kittiRow p
+  simp only [this]
+
+/-! ### JSON transform: slots -/
+
+/-- `x y z` are the translation column, `(qw, qx, qy, qz)` the rotation, `scale` (default 1)
+multiplies the rotation block; bottom row `0 0 0 1`. -/
+theorem json_slots (m : List (Str × Rat)) (x y z qx qy qz qw sc x' y' z' qx' qy' qz' qw' sc' : Rat)
+    (hx : lookupKey "x".toList m = some x) (hy : lookupKey "y".toList m = some y)
+    (hz : lookupKey "z".toList m = some z) (hqx : lookupKey "qx".toList m = some qx)
+    (hqy : lookupKey "qy".toList m = some qy) (hqz : lookupKey "qz".toList m = some qz)
+    (hqw : lookupKey "qw".toList m = some qw) (hs : (lookupKey "scale".toList m).getD 1 = sc)
+    (rx : F64.rne x = some x') (ry : F64.rne y = some y') (rz : F64.rne z = some z')
+    (rqx : F64.rne qx = some qx') (rqy : F64.rne qy = some qy') (rqz : F64.rne qz = some qz')
+    (rqw : F64.rne qw = some qw') (rs : F64.rne sc = some sc') :
+    ∃ a b c d e f g h i, quatToRot qw' qx' qy' qz' = [[a, b, c], [d, e, f], [g, h, i]] ∧
+      transformOfMap m = .ok [[sc' * a, sc' * b, sc' * c, x'], [sc' * d, sc' * e, sc' * f, y'],
+        [sc' * g, sc' * h, sc' * i, z'], [0, 0, 0, 1]] := by
+  have hshape : ∃ a b c d e f g h i, quatToRot qw' qx' qy' qz' = [[a, b, c], [d, e, f], [g, h, i]] := by
+    unfold quatToRot
+    simp only
+    split <;> exact ⟨_, _, _, _, _, _, _, _, _, rfl⟩
+  obtain ⟨a, b, c, d, e, f, g, h, i, hq⟩ := hshape
+  refine ⟨a, b, c, d, e, f, g, h, i, hq, ?_⟩
+  unfold transformOfMap
+  simp only [hx, hy, hz, hqx, hqy, hqz, hqw, hs, mapOpt, rx, ry, rz, rqx, rqy, rqz, rqw, rs, hq]
+
+/-- one of the seven keys missing ⇒ the format error -/
+theorem json_missing_key_rejected (m : List (Str × Rat))
+    (h : lookupKey "x".toList m = none ∨ lookupKey "y".toList m = none ∨ lookupKey "z".toList m = none ∨
+      lookupKey "qx".toList m = none ∨ lookupKey "qy".toList m = none ∨ lookupKey "qz".toList m = none ∨
+      lookupKey "qw".toList m = none) :
+    transformOfMap m = .error .format := by
+  unfold transformOfMap
+  simp only
+  split
+  · rename_i h1 h2 h3 h4 h5 h6 h7
+    rcases h with h | h | h | h | h | h | h <;> simp_all
+  · rfl
+
+/-! ### quaternion → rotation -/
+
+/-- `(w, x, y, z)` ↦ the standard rotation matrix: `q` and `−q` give the same matrix; for a
+quaternion of non-negligible norm the result is orthonormal with determinant 1; for a unit
+quaternion it is the textbook formula; `(1, 0, 0, 1)/√2` is the rotation by +90° about `z`. -/
+theorem quat_to_rot_convention (w x y z : Rat) :
+    quatToRot (-w) (-x) (-y) (-z) = quatToRot w x y z ∧
+    (quatEps ≤ w * w + x * x + y * y + z * z → ∀ a b c d e f g h i : Rat,
+      quatToRot w x y z = [[a, b, c], [d, e, f], [g, h, i]] →
+      a * a + d * d + g * g = 1 ∧ b * b + e * e + h * h = 1 ∧ c * c + f * f + i * i = 1 ∧
+      a * b + d * e + g * h = 0 ∧ a * c + d * f + g * i = 0 ∧ b * c + e * f + h * i = 0 ∧
+      a * (e * i - f * h) - b * (d * i - f * g) + c * (d * h - e * g) = 1) ∧
+    (w * w + x * x + y * y + z * z = 1 → quatToRot w x y z =
+      [[1 - 2 * (y * y) - 2 * (z * z), 2 * (x * y) - 2 * (z * w), 2 * (x * z) + 2 * (y * w)],
+       [2 * (x * y) + 2 * (z * w), 1 - 2 * (x * x) - 2 * (z * z), 2 * (y * z) - 2 * (x * w)],
+       [2 * (x * z) - 2 * (y * w), 2 * (y * z) + 2 * (x * w), 1 - 2 * (x * x) - 2 * (y * y)]]) ∧
+    quatToRot 1 0 0 1 = [[0, -1, 0], [1, 0, 0], [0, 0, 1]] := by
+  have heps : (0 : Rat) < quatEps := by unfold quatEps; norm_num
+  refine ⟨?_, ?_, ?_, ?_⟩
+  · unfold quatToRot
+    simp only [neg_mul_neg]
+  · intro hn a b c d e f g h i hq
+    have hnpos : 0 < w * w + x * x + y * y + z * z := lt_of_lt_of_le heps hn
+    have hne : w * w + x * x + y * y + z * z ≠ 0 := ne_of_gt hnpos
+    unfold quatToRot at hq
+    simp only [if_neg (not_lt.mpr hn)] at hq
+    have hsn : 2 / (w * w + x * x + y * y + z * z) * (w * w + x * x + y * y + z * z) = 2 :=
+      div_mul_cancel₀ _ hne
+    generalize 2 / (w * w + x * x + y * y + z * z) = s at hq hsn
+    simp only [List.cons.injEq, and_true] at hq
+    obtain ⟨⟨rfl, rfl, rfl⟩, ⟨rfl, rfl, rfl⟩, rfl, rfl, rfl⟩ := hq
+    refine ⟨?_, ?_, ?_, ?_, ?_, ?_, ?_⟩
+    · linear_combination (s * (y ^ 2 + z ^ 2)) * hsn
+    · linear_combination (s * (x ^ 2 + z ^ 2)) * hsn
+    · linear_combination (s * (x ^ 2 + y ^ 2)) * hsn
+    · linear_combination (-s * x * y) * hsn
+    · linear_combination (-s * x * z) * hsn
+    · linear_combination (-s * y * z) * hsn
+    · linear_combination (s * (x ^ 2 + y ^ 2 + z ^ 2)) * hsn
+  · intro hn
+    unfold quatToRot
+    simp only [hn]
+    have : ¬ ((1 : Rat) < quatEps) := by unfold quatEps; norm_num
+    simp only [if_neg this]
+    norm_num
+  · unfold quatToRot quatEps
+    norm_num
+
+/-! ### `is_sim3` -/
+
+/-- What acceptance by `is_sim3` means in exact arithmetic: a 4×4 matrix with bottom row
+`0 0 0 1`, positive determinant `D` of the 3×3 block, and Gram matrix `RᵀR` within the
+`allclose` tolerances of `s²·I` for `s³ = D` (stated without the cube root: both sides cubed).
+A matrix violating any of this — wrong bottom row, reflection, zero or sheared or anisotropically
+scaled block — is rejected. -/
+theorem transform_rejected_if_not_sim3 (m : List (List Rat)) (h : isSim3Tol m = true) :
+    (∃ r0 r1 r2 : List Rat, m = [r0, r1, r2, [0, 0, 0, 1]]) ∧ 0 < det3 m ∧
+    ∃ dg off, gram3 m = some (dg, off) ∧
+      (∀ g ∈ dg, (1 - tolDiag) ^ 3 * (det3 m * det3 m) ≤ g ^ 3 ∧ g ^ 3 ≤ (1 + tolDiag) ^ 3 * (det3 m * det3 m)) ∧
+      (∀ g ∈ off, (absR g) ^ 3 ≤ tolOff ^ 3 * (det3 m * det3 m)) := by
+  unfold isSim3Tol at h
+  split at h
+  · rename_i r0 r1 r2 b0 b1 b2 b3 dg off hg
+    simp only [Bool.and_eq_true, decide_eq_true_eq, List.all_eq_true] at h
+    obtain ⟨⟨⟨⟨rfl, rfl, rfl, rfl⟩, hd⟩, hdg⟩, hoff⟩ := h
+    exact ⟨⟨r0, r1, r2, rfl⟩, hd, dg, off, hg, hdg, hoff⟩
+  · cases h
+
+/-- Every exact similarity matrix `[sR | t; 0 0 0 1]` (`RᵀR = I`, `det R = 1`, `s > 0`,
+written as `MᵀM = s²I`, `det M = s³`) is accepted. -/
+theorem sim3_exact_accepted (a b c d e f g h i tx ty tz s : Rat) (hs : 0 < s)
+    (h00 : a * a + d * d + g * g = s ^ 2) (h11 : b * b + e * e + h * h = s ^ 2)
+    (h22 : c * c + f * f + i * i = s ^ 2) (h01 : a * b + d * e + g * h = 0)
+    (h02 : a * c + d * f + g * i = 0) (h12 : b * c + e * f + h * i = 0)
+    (hdet : a * (e * i - f * h) - b * (d * i - f * g) + c * (d * h - e * g) = s ^ 3) :
+    isSim3Tol [[a, b, c, tx], [d, e, f, ty], [g, h, i, tz], [0, 0, 0, 1]] = true := by
+  unfold isSim3Tol gram3 det3
+  simp only [h00, h11, h22, h01, h02, h12, hdet]
+  have hs3 : 0 < s ^ 3 := by positivity
+  have hs6 : 0 ≤ s ^ 3 * s ^ 3 := by positivity
+  have e6 : (s ^ 2) ^ 3 = s ^ 3 * s ^ 3 := by ring
+  have l1 : (1 - tolDiag) ^ 3 ≤ 1 := by unfold tolDiag; norm_num
+  have l2 : 1 ≤ (1 + tolDiag) ^ 3 := by unfold tolDiag; norm_num
+  have l3 : 0 ≤ tolOff ^ 3 := by unfold tolOff; norm_num
+  have habs : absR (0 : Rat) = 0 := by decide
+  simp only [List.all_cons, List.all_nil, Bool.and_true, Bool.and_eq_true, decide_eq_true_eq, e6, habs]
+  refine ⟨⟨⟨by simp, hs3⟩, ?_⟩, ?_⟩
+  · have h1 : (1 - tolDiag) ^ 3 * (s ^ 3 * s ^ 3) ≤ s ^ 3 * s ^ 3 := by nlinarith
+    have h2 : s ^ 3 * s ^ 3 ≤ (1 + tolDiag) ^ 3 * (s ^ 3 * s ^ 3) := by nlinarith
+    exact ⟨⟨h1, h2⟩, ⟨h1, h2⟩, h1, h2⟩
+  · have : (0 : Rat) ^ 3 ≤ tolOff ^ 3 * (s ^ 3 * s ^ 3) := by
+      have := mul_nonneg l3 hs6
+      simpa using this
+    exact ⟨this, this, this⟩
+
+/-! ### non-vacuity: the hypotheses are met by concrete files -/
+
+deriving instance DecidableEq for Except
+
+/-- comment first, CRLF, every literal spelling: accepted, slots as published -/
+example : readTumPath "\uFEFF# t x y z qx qy qz qw\r\n1.5 2. .5 +3 -4E+0 0.1 0e0 1e0\r\n".toList
+    = .ok [⟨3/2, 2, 1/2, 3, 1, -4, 3602879701896397/36028797018963968, 0⟩] := by decide +kernel
+/-- the defect in a *later* row: short row, long row, non-numeric field, trailing blank, blank line -/
+example : readTum "1 2 3 4 0 0 0 1\n1 2 3 4 0 0 0\n".toList = .error .format := by decide +kernel
+example : readTum "1 2 3 4 0 0 0 1\n1 2 3 4 0 0 0 1 9\n".toList = .error .format := by decide +kernel
+example : readTum "1 2 3 4 0 0 0 1\n1 2 3 4 0 0 x 1\n".toList = .error .format := by decide +kernel
+example : readTum "1 2 3 4 0 0 0 1\n1 2 3 4 0 0 0 1 \n".toList = .error .format := by decide +kernel
+example : readTum "1 2 3 4 0 0 0 1\n\n1 2 3 4 0 0 0 1\n".toList = .error .format := by decide +kernel
+example : readTum "# only a comment\n".toList = .error .format := by decide +kernel
+example : readKitti "1 2 3 4 5 6 7 8 9 10 11 12\n".toList = .ok [⟨1, 2, 3, 4, 5, 6, 7, 8, 9, 10, 11, 12⟩] := by
+  decide +kernel
+/-- EuRoC: nanoseconds → seconds with the double rounding of `np.divide(·, 1e9)` -/
+example : readEuroc "#timestamp,p\n1403636580838555648,1,2,3,1,0,0,0,7,7\n".toList
+    = .ok [⟨5887278525557477/4194304, 1, 2, 3, 1, 0, 0, 0⟩] := by decide +kernel
+
+/-- a token function satisfying `GoodTok` on the values it is used for, and the round trip -/
+def tok01 (x : Rat) : Str := if x = 0 then "0.000000000000000000e+00".toList else "1.000000000000000000e+00".toList
+example : GoodTok tok01 0 ∧ GoodTok tok01 1 :=
+  ⟨⟨by decide +kernel, 0, by decide +kernel, by decide +kernel⟩,
+   ⟨by decide +kernel, 1, by decide +kernel, by decide +kernel⟩⟩
+example : readTum (layoutTum tok01 [⟨1, 0, 1, 0, 1, 0, 0, 0⟩, ⟨1, 1, 1, 0, 0, 0, 0, 1⟩])
+    = .ok [⟨1, 0, 1, 0, 1, 0, 0, 0⟩, ⟨1, 1, 1, 0, 0, 0, 0, 1⟩] := by decide +kernel
+
+/-- Sim(3): scale 2, rotation by 90° about z accepted; reflection, wrong bottom row, shear rejected -/
+example : isSim3Tol [[0, -2, 0, 5], [2, 0, 0, 6], [0, 0, 2, 7], [0, 0, 0, 1]] = true := by decide +kernel
+example : isSim3Tol [[-1, 0, 0, 0], [0, 1, 0, 0], [0, 0, 1, 0], [0, 0, 0, 1]] = false := by decide +kernel
+example : isSim3Tol [[1, 0, 0, 0], [0, 1, 0, 0], [0, 0, 1, 0], [0, 0, 0, 2]] = false := by decide +kernel
+example : isSim3Tol [[1, 1/100, 0, 0], [0, 1, 0, 0], [0, 0, 1, 0], [0, 0, 0, 1]] = false := by decide +kernel
+example : loadTransformJson "{\"x\": 1, \"y\": 2.5, \"z\": -3e0, \"qx\": 0, \"qy\": 0, \"qz\": 1, \"qw\": 1, \"scale\": 2}".toList
+    = some (.ok [[0, -2, 0, 1], [2, 0, 0, 5/2], [0, 0, 2, -3], [0, 0, 0, 1]]) := by decide +kernel
+example : loadTransformJson "{\"x\": 1, \"y\": 2.5, \"qx\": 0, \"qy\": 0, \"qz\": 1, \"qw\": 1}".toList
+    = some (.error .format) := by decide +kernel
 
 end Evo.C07
